@@ -629,3 +629,111 @@ def block(progs):
                                    '%s may throw while the block just obtained from the allocator is only held by a local variable and no handler gives it '
                                    'back: the block is leaked' % describe(tn)[:120], where=f['pname'], unit=prog.uname))
     return rr
+
+
+# ====================================================================================== CHECK-FIRST
+class CheckFirstClient(Client):
+    """State: {'mut'} once the container has been modified on this path."""
+    MUT_METHODS = {'clear', 'erase', 'pop_back', 'pop_back_val', 'resize', 'assign', 'shrink_to_fit', 'swap', 'swap2', 'setSize', 'incrSize', 'decrSize',
+                   'destroyFreeStorage', 'freeStorage', 'resetToSmall'}
+
+    def __init__(self, report, linit):
+        self.report, self.linit = report, linit
+
+    def is_event(self, n):
+        return n.get('k') == 'call'
+
+    def event(self, n, s):
+        kind, det = R.role(n)
+        sn = A.cshort(n)
+        if kind == 'check':
+            on_this = n.get('obj') is None or A.root(n.get('obj'), self.linit)[0] == 'this' or A.callee(n).endswith('GrowingPolicy::Check')
+            if 'mut' in s and on_this:
+                self.report(n)
+            return [('n', s)]
+        mut = kind in ('destroy', 'assign', 'construct', 'commit', 'erase', 'hole_open') or \
+            (n.get('method') and n.get('amc') and sn in self.MUT_METHODS and (n.get('obj') is None or A.root(n.get('obj'), self.linit)[0] == 'this'))
+        if mut and kind in ('destroy', 'assign', 'construct'):
+            # only operations on this container's storage count (not on a local temporary)
+            d = R.dest_arg(n) if kind == 'construct' else (n.get('args') or [None])[0]
+            from .lifetime import dest_class
+            dc = dest_class(d, self.linit, {}) if d is not None else 'unknown'
+            mut = dc == 'inline' or (isinstance(dc, tuple) and dc[0] == 'storage' and dc[1] == 'this') or dc == 'unknown' and False
+        return [('n', s | {'mut'} if mut else s)]
+
+
+def check_first(progs):
+    rr = RuleResult('CHECK-FIRST', 'in every operation that tests the capacity limit itself (adjustCapacity / Check / reserve / grow on this) the test '
+                                   'comes before the first modification of the container on every path: a capacity-limit error leaves contents, size and '
+                                   'capacity untouched')
+    for prog in progs:
+        for f in prog.amc_functions():
+            body = f.get('body')
+            if body is None or f.get('clsq') not in ('amc::vec::VectorImpl', 'amc::vec::StaticVector', 'amc::vec::DynamicVector', 'amc::Vector'):
+                continue
+            if not any(R.role(c)[0] == 'check' for c in A.calls(body)):
+                continue
+            linit = A.local_inits(body)
+            sites = {}
+
+            def report(n, sites=sites):
+                sites[id(n)] = n
+            Engine(CheckFirstClient(report, linit)).run(body, frozenset(), f.get('inits'))
+            rr.instance('%s|%s' % (f['key'], prog.uname), {'function': f['pname'][:160], 'checks_after_modification': len(sites)})
+            for n in sites.values():
+                rr.add(Finding('CHECK-FIRST', '%s|%s' % (f['key'], A.cshort(n)), prog.site(f, n),
+                               'the capacity test %s runs after the container has already been modified on some path: if it throws (capacity limit / size_type '
+                               'overflow) the contents are not what they were before the call' % A.cshort(n), where=f['pname'], unit=prog.uname))
+    return rr
+
+
+# ====================================================================================== XALLOC
+def xalloc(progs):
+    rr = RuleResult('XALLOC', 'two vectors exchange their heap buffers only when allocator type and size_type are the same: for every other operand '
+                              'combination canSwapDynStorage folds to the constant false in the instantiated program')
+    for prog in progs:
+        for f in prog.amc_functions():
+            if short(f['name']) != 'canSwapDynStorage' or f.get('body') is None or f.get('clsq') not in BASES:
+                continue
+            own = prog.record(f.get('cls', ''))
+            ps = f.get('params', [])
+            if own is None or not ps:
+                continue
+            ot = ps[0]['t'].replace('&', '').replace('const ', '').strip()
+            other = prog.record(ot)
+            oa = (other or {}).get('targs') or []
+            wa = own.get('targs') or []
+            if 'StaticVectorBase' in ot:
+                same = False
+            elif len(oa) >= 3 and len(wa) >= 3:
+                same = oa[1] == wa[1] and oa[2] == wa[2]
+            else:
+                rr.broken = rr.broken or 'XALLOC: cannot read the template arguments of %s / %s' % (f.get('cls'), ot)
+                continue
+            rets = [n for n in walk(f['body']) if n.get('k') == 'ret']
+            folded = bool(rets) and all((A.strip(r.get('e')) or {}).get('cv') in (0, False) or ((A.strip(r.get('e')) or {}).get('k') == 'lit' and (A.strip(r.get('e')) or {}).get('v') is False)
+                                        for r in rets)
+            ok = same or folded
+            rr.instance('%s|%s|%s' % (f['key'], f.get('cls', '')[:90], ot[:90]), {'receiver': f.get('cls', '')[:120], 'operand': ot[:120], 'same_allocator_and_size_type': same,
+                                                                                  'folds_to_false': folded, 'ok': ok})
+            if not ok:
+                rr.add(Finding('XALLOC', '%s|%s' % (f['key'], 'static' if 'StaticVectorBase' in ot else 'dyn'), f['loc'],
+                               'canSwapDynStorage does not fold to false for a receiver %s and an operand %s: swap2 would exchange heap buffers between vectors '
+                               'whose allocator type or size_type differ (each block is later returned to the wrong allocator / with a count of the wrong type)'
+                               % (f.get('cls', '')[:100], ot[:100]), where=f['pname'], unit=prog.uname))
+        # who-may-call: inside swap2 the buffers are exchanged only under that predicate
+        for f in prog.amc_functions():
+            if short(f['name']) != 'swap2_impl' or f.get('body') is None:
+                continue
+            P = None
+            for c in A.calls(f['body']):
+                if A.cshort(c) not in ('swapDynStorage', 'SwapDynStorage'):
+                    continue
+                P = P or A.Parents(f['body'])
+                ok = any(truth and any(A.cshort(x) == 'canSwapDynStorage' for x in walk(cond)) and
+                         not any(x.get('k') == 'un' and x.get('op') == '!' for x in walk(cond)) for cond, truth in P.guards(c))
+                rr.instance('%s|exchange|%s' % (f['key'], prog.uname), {'function': f['pname'][:140], 'guarded_by_canSwapDynStorage': ok})
+                if not ok:
+                    rr.add(Finding('XALLOC', '%s|unguarded' % f['key'], prog.site(f, c),
+                                   'swap2 exchanges the heap buffers outside a branch guarded by canSwapDynStorage', where=f['pname'], unit=prog.uname))
+    return rr
